@@ -40,6 +40,30 @@ if [ -n "$YB" ] && [ -x "$YB" ]; then
     if [ ${#seen[@]} -eq 1 ]; then echo "determinism $p world Y: $n processes, 1 distinct hash (${!seen[@]}) OK"; else echo "determinism $p world Y: $n processes, ${#seen[@]} DISTINCT hashes: ${!seen[@]}  MISMATCH"; rc=2; fi
     unset seen
   done
+  # world S over the generated copy (recorded per-goroutine parking streams)
+  for p in C18 C17; do
+    declare -A seen=()
+    n=0
+    for gmp in 1 4 16; do
+      for rep in 1 2 3 4 5 6; do
+        h=$(GOMAXPROCS=$gmp timeout 600 "$YB" dethash -p $p -world SY -runs $((RUNS/2)) -workers 1 | sed 's/.*hash=//')
+        seen[$h]=1; n=$((n+1))
+      done
+    done
+    if [ ${#seen[@]} -eq 1 ]; then echo "determinism $p world S over the generated copy: $n processes, 1 distinct hash (${!seen[@]}) OK"; else echo "determinism $p world S over the generated copy: $n processes, ${#seen[@]} DISTINCT hashes: ${!seen[@]}  MISMATCH"; rc=2; fi
+    unset seen
+  done
+  # cold-start groups of world Y
+  declare -A seen=()
+  n=0
+  for gmp in 1 4 16; do
+    for rep in 1 2 3 4; do
+      h=$(GOMAXPROCS=$gmp timeout 600 "$YB" dethash -p C07 -world Ycold -runs $((RUNS/10)) -workers 1 | sed 's/.*hash=//')
+      seen[$h]=1; n=$((n+1))
+    done
+  done
+  if [ ${#seen[@]} -eq 1 ]; then echo "determinism C07 world Y cold-start policies: $n processes, 1 distinct hash (${!seen[@]}) OK"; else echo "determinism C07 world Y cold-start policies: $n processes, ${#seen[@]} DISTINCT hashes: ${!seen[@]}  MISMATCH"; rc=2; fi
+  unset seen
 else
   echo "determinism world Y: binary not built, skipped"
 fi
